@@ -1,0 +1,30 @@
+//go:build verif
+
+package gortsplib
+
+import "time"
+
+// Hooks for the verification harness of the server session state machine (build tag "verif"
+// only; nothing here changes behaviour).
+
+// VerifSecretID exports the session identifier carried by the Session header.
+func (ss *ServerSession) VerifSecretID() string {
+	return ss.secretID
+}
+
+// VerifBarrier waits until the session routine has processed every event it received before the
+// call, and reports whether the session is ending (its run loop has returned).
+// It pushes a nil connection through chRemoveConn: deleting a nil key changes nothing, and the
+// "no connections left" rule gives the same answer it gave when the set last changed.
+func (ss *ServerSession) VerifBarrier() bool {
+	select {
+	case ss.chRemoveConn <- nil:
+	case <-ss.ctx.Done():
+	}
+	return ss.ctx.Err() != nil
+}
+
+// VerifSetCheckStreamPeriod sets the period of the UDP stream check (call before Start).
+func (s *Server) VerifSetCheckStreamPeriod(d time.Duration) {
+	s.checkStreamPeriod = d
+}
